@@ -23,7 +23,7 @@ ASSUMPTIONS = ["svmc/refcbor.py; cache files read with C10's walker", "pattern s
 BOUNDS = {"quick": "555 trees (second dependency fixed to a leaf) x 25 pattern pairs; extract histories depth 2",
           "thorough": "same trees x 25 pattern pairs x eb in {1,16}; extract histories depth 3"}
 
-PAYSETS = [[], ["#a"], ["#a", "#b"], ["cache://x"], ["#e", "#a"], ["#ab", "#a"]]      # "#e" is a zero-length payload
+PAYSETS = [[], ["#a"], ["#a", "#b"], ["cache://x"], ["#e", "#a"], ["#ab", "#a"], ["#A", "#a"]]      # "#e" is a zero-length payload
 PATTERNS = [None, "nomatch", ".*", "#a.*", "#dep.*", "#a"]        # "#a" must not select "#ab" (fullmatch, not prefix)
 
 
@@ -168,6 +168,12 @@ def run_cache(case, agg):
     with fresh_dir("c11") as d:
         inp, oute, outc = (os.path.join(d, x) for x in ("in.suit", "out.suit", "cache.bin"))
         open(inp, "wb").write(b)
+        inplace = case["i"] % 7 == 3
+        if inplace:
+            oute = inp                              # --output-envelope names the input file
+        elif not refuse:
+            impl.prefill(oute)
+            impl.prefill(outc)
         try:
             if seed_slice(case["i"], 211):
                 args = ["cache_create", "from_envelope", "--input-envelope", inp, "--output-envelope", oute, "--output-file", outc,
@@ -185,7 +191,7 @@ def run_cache(case, agg):
                                       output_file=outc, eb_size=case["eb"], omit_payload_regex=omit, dependency_regex=dep)
                 via = "main"
         except Exception as e:
-            left = [x for x in (oute, outc) if os.path.exists(x)]
+            left = [x for x in (oute, outc) if os.path.exists(x) and x != inp]
             if refuse:
                 if left:
                     agg.viol("C11:cache/refusal-left-output", f"{label}: refused ({refuse}) but wrote {[os.path.basename(x) for x in left]}")
